@@ -12,7 +12,7 @@ use crate::workload;
 use serde_json::json;
 
 /// in-process observation of one string; returns Some(is_ok) unless it panicked
-fn observe(s: &str, acc: &mut Acc, feature: &str) -> Option<bool> {
+pub fn observe(s: &str, acc: &mut Acc, feature: &str) -> Option<bool> {
     acc.evaluations += 1;
     let r = par::catch(|| BoardState::from_fen(s).map_err(|e| e.to_string()));
     if acc.distinct.insert(hash64(s)) {
@@ -47,7 +47,7 @@ fn observe(s: &str, acc: &mut Acc, feature: &str) -> Option<bool> {
 
 /// Strict reading: exactly six space separated fields, standard alphabet, counters are
 /// non-negative integers (halfmove) / positive integers (fullmove), position legal per C01.
-fn wellformed_legal(s: &str) -> Option<Pos> {
+pub fn wellformed_legal(s: &str) -> Option<Pos> {
     if s.chars().any(|c| (c.is_whitespace() && c != ' ') || c.is_control()) {
         return None;
     }
@@ -83,7 +83,7 @@ fn wellformed_legal(s: &str) -> Option<Pos> {
     }
 }
 
-fn faithful_if_wellformed(s: &str, b: &BoardState, acc: &mut Acc) {
+pub fn faithful_if_wellformed(s: &str, b: &BoardState, acc: &mut Acc) {
     if let Some(p) = wellformed_legal(s) {
         let got = fields_of(b);
         let want = fields_of_pos(&p);
@@ -99,7 +99,7 @@ fn faithful_if_wellformed(s: &str, b: &BoardState, acc: &mut Acc) {
 
 const FEN_ALPHABET: &[u8] = b"rnbqkpRNBQKP12345678/ wb-KQkqabcdefgh0123456789";
 
-fn mutate(rng: &mut Rng, base: &str) -> String {
+pub fn mutate(rng: &mut Rng, base: &str) -> String {
     let mut fields: Vec<String> = base.split(' ').map(|s| s.to_string()).collect();
     match rng.below(16) {
         0 => {
@@ -177,7 +177,7 @@ fn mutate(rng: &mut Rng, base: &str) -> String {
     fields.join(" ")
 }
 
-fn random_unicode(rng: &mut Rng, len: usize) -> String {
+pub fn random_unicode(rng: &mut Rng, len: usize) -> String {
     let mut s = String::new();
     for _ in 0..len {
         let c = match rng.below(6) {
